@@ -708,7 +708,8 @@ impl Buffer {
     ///
     /// This function will return an error if .
     pub fn from_bytes(file_name: &Path, _skip_errors: bool, bytes: &[u8]) -> EngineResult<Buffer> {
-        let ext = file_name.extension().unwrap().to_string_lossy();
+        // a name without extension ("README", ".ans") is not an error: it falls through to the ANSI loader below
+        let ext = file_name.extension().map(|e| e.to_string_lossy().to_ascii_lowercase()).unwrap_or_default();
         let mut len = bytes.len();
         let sauce_data = match SauceData::extract(bytes) {
             Ok(Some(sauce)) => {
@@ -722,7 +723,6 @@ impl Buffer {
             }
         };
 
-        let ext = ext.to_ascii_lowercase();
         for fmt in &*FORMATS {
             if fmt.get_file_extension() == ext || fmt.get_alt_extensions().contains(&ext) {
                 return fmt.load_buffer(file_name, &bytes[..len], sauce_data);
